@@ -32,12 +32,16 @@ WReplyWhileParked == Parked /\ SParked # {} /\ ReadReply(CHOOSE k \in SParked : 
 WEmptyReplyDelivered == SParked # {} /\ Head(rxq[CHOOSE k \in SParked : TRUE]).len = 0 /\ ReadReply(CHOOSE k \in SParked : TRUE)
 WEmptyAnswerCompletesDns == rpc = "regin" /\ rcur.len = 0 /\ Rev(rcur.lab) \in DOMAIN pipeTab /\ pipeTab[Rev(rcur.lab)].pend = 1 /\ RegisterIncoming
 WEmptyDatagramSent == SendOk /\ lcur.len = 0
+WTooBigDropped == SendTooBig
+WSendErrWhileRelayUp == SendErr /\ ~relayDown
+WAssocErrorWhileRelayNeverDown == rpc = "idle" /\ \E s \in Sources : AssocError(s) /\ ~relayDown
 WReplyAfterFlowEnded == rpc = "regin" /\ Rev(rcur.lab) \notin DOMAIN pipeTab /\ RegisterIncoming
 
 Witnesses == WAddPeer \/ WExpireLeavesSiblings \/ WExpireLeavesOneSibling \/ WExpireLastReleases \/ WDnsLeavesSiblings
              \/ WDnsLeavesOneSibling \/ WDnsLastReleases \/ WSiblingUsedAfterClose \/ WTwoAssociations
              \/ WErrorClosesSeveral \/ WErrorOtherSourceLives \/ WRefusedThenOk \/ WSendErr \/ WReplyAfterFlowEnded
              \/ WCancelledThenFresh \/ WReplyWhileParked \/ WEmptyReplyDelivered \/ WEmptyAnswerCompletesDns \/ WEmptyDatagramSent
+             \/ WTooBigDropped \/ WSendErrWhileRelayUp
 
 MCNext == Next \/ Witnesses
 MCSpec == Init /\ [][MCNext]_vars
